@@ -69,12 +69,11 @@ def _get_fn_argnames(fn: Callable) -> List[str]:
     if hasattr(fn, "__wrapped__"):
         return _get_fn_argnames(fn.__wrapped__)
 
-    arg_spec = inspect.getfullargspec(fn)
-    # keyword-only arguments can be designated (and passed) by name
-    arg_spec_args = arg_spec.args + arg_spec.kwonlyargs
+    arg_spec_args = inspect.getfullargspec(fn).args
 
-    first_arg_is_self = bool(arg_spec.args) and arg_spec.args[0] == "self"
-    first_arg_is_cls = bool(arg_spec.args) and arg_spec.args[0] == "cls"
+    # (a function may have no positional parameter at all)
+    first_arg_is_self = arg_spec_args[:1] == ["self"]
+    first_arg_is_cls = arg_spec_args[:1] == ["cls"]
     is_py_newer_than_39 = sys.version_info[:2] >= (3, 9)
     # Exclusion criteria
     is_regular_method = inspect.ismethod(fn) and first_arg_is_self
@@ -287,9 +286,16 @@ def check_input(
                     args = list(bound_args.args)
             elif obj_getter is None:
                 try:
-                    # the first argument: the first named parameter, or - for
-                    # a function that only takes *args - the first value
-                    obj_arg_name, *_ = _get_fn_argnames(wrapped) or [None]
+                    # the first argument: the first positional parameter,
+                    # else the first keyword-only one, or - for a function
+                    # that only takes *args - the first value
+                    obj_arg_name, *_ = (
+                        _get_fn_argnames(wrapped)
+                        or inspect.getfullargspec(
+                            _unwrap_fn(wrapped)
+                        ).kwonlyargs
+                        or [None]
+                    )
 
                     named, obj = _named_argument(obj_arg_name)
                     if named:
